@@ -20,13 +20,98 @@ META = {
 }
 
 
+LINEAR_KINDS = ["Drift", "Quadrupole", "Dipole", "RBend", "Solenoid", "HorizontalCorrector", "VerticalCorrector",
+                "Undulator"]
+
+
+def vector_probe(ctx, n: int) -> None:
+    """Vectorised form of the property (the batch dimension is carried by the element, the beam, or both):
+    for every sample b the ParameterBeam result must be the sample mean / covariance of the tracked ParticleBeam of
+    sample b.  All elements used here act by their transfer map, for which the identity is exact."""
+    import numpy as np
+    import torch
+    import cheetah
+    from fals import _c0405 as H
+    rep, rng = ctx.report, ctx.rng
+    F64 = torch.float64
+    NP = 9
+    for _ in range(n):
+        kind = LINEAR_KINDS[int(rng.integers(len(LINEAR_KINDS)))]
+        B = int(rng.integers(2, 4))
+        mode = ["elem", "beam", "both", "both"][int(rng.integers(4))]
+        rec = H.gen_kind(rng, kind)
+        T = {}
+        if mode in ("elem", "both"):
+            names = H.PARAMS[rec["cls"]]
+            k = int(rng.integers(1, min(3, len(names)) + 1))
+            for j in rng.choice(len(names), size=k, replace=False):
+                nm = names[int(j)]
+                T[nm] = H.tt([H.sample_value(rng, kind, nm) for _ in range(B)])
+        En = float(H.E.energy(rng))
+        nb = B if mode in ("beam", "both") else 1
+        P = np.stack([H.LT.gen_particles(rng, NP) for _ in range(nb)])
+        if nb == 1:
+            P = P[0]
+        rep.fals_cases += 1
+        rep.case(("vector", kind, mode), {"kind": kind, "mode": mode, "B": B})
+        rep.count(f"vector:{mode}")
+        vector_case(rep, {"kind": "vector_probe", "rec": rec, "T": {k: v.tolist() for k, v in T.items()}, "energy": En,
+                          "particles": P.tolist(), "mode": mode})
+
+
+def vector_case(rep, replay: dict) -> None:
+    import numpy as np
+    import torch
+    import cheetah
+    from fals import _c0405 as H
+    F64 = torch.float64
+    rec, mode, En = replay["rec"], replay["mode"], replay["energy"]
+    T = {k: H.tt(v) for k, v in replay["T"].items()}
+    P = np.asarray(replay["particles"], dtype=float)
+    NP = P.shape[-2]
+    B = max([P.shape[0] if P.ndim == 3 else 1] + [int(v.shape[0]) for v in T.values()])
+    Pt = H.tt(P)
+    mean = Pt.mean(dim=-2)
+    cen = Pt - mean.unsqueeze(-2)
+    cov = cen.transpose(-2, -1) @ cen / (NP - 1)
+    if True:
+        sig = f"C06|{H.label(rec)}|vectorised:{mode}|"
+        try:
+            el = H.build_t(rec, T)
+            pb = cheetah.ParticleBeam(Pt, H.tt(En), particle_charges=H.tt(np.full(NP, 1e-12)), dtype=F64)
+            mb = cheetah.ParameterBeam(mean, cov, H.tt(En), total_charge=H.tt(NP * 1e-12), dtype=F64)
+            po = el.track(pb).particles
+            mo = el.track(mb)
+            mu_o, cov_o = mo._mu, mo._cov
+        except Exception as e:  # noqa: BLE001
+            rep.fail("falsifier", sig + "raises", f"{H.label(rec)} vectorised ({mode}, B={B}): {type(e).__name__}: {e}", replay)
+            return
+        m2 = po.mean(dim=-2)
+        c2 = po - m2.unsqueeze(-2)
+        cov2 = c2.transpose(-2, -1) @ c2 / (NP - 1)
+        if tuple(mu_o.shape) != tuple(m2.shape) or tuple(cov_o.shape) != tuple(cov2.shape):
+            rep.fail("falsifier", sig + "shape", f"{H.label(rec)} vectorised ({mode}, B={B}): ParameterBeam mu/cov shapes "
+                     f"{tuple(mu_o.shape)}/{tuple(cov_o.shape)}, moments of the tracked ParticleBeam {tuple(m2.shape)}/{tuple(cov2.shape)}", replay)
+            return
+        sc = torch.tensor([1e-3, 1e-4, 1e-3, 1e-4, 1e-3, 1e-3, 1.0], dtype=F64)
+        dmu = float(((mu_o - m2).abs() / sc).max())
+        dcov = float(((cov_o - cov2).abs() / (sc.unsqueeze(-1) * sc)).max())
+        if not (dmu < 1e-7 and dcov < 1e-7):
+            rep.fail("falsifier", sig + ("mean" if not dmu < 1e-7 else "cov"),
+                     f"{H.label(rec)} vectorised ({mode}, B={B}): ParameterBeam result differs from the moments of the tracked "
+                     f"ParticleBeam: mean by {dmu:.3g}, covariance by {dcov:.3g} (scaled)", replay)
+
+
 def run(ctx) -> None:
     run_track_correspondence(ctx, "C06", ctx.n(8, 200))
+    vector_probe(ctx, ctx.n(16, 400))
     if F is not None:
         F.run(ctx)
 
 
 def corpus_case(ctx, r: dict) -> None:
+    if r.get("kind") == "vector_probe":
+        return vector_case(ctx.report, r)
     if F is not None and hasattr(F, "corpus_case"):
         F.corpus_case(ctx, r)
 
